@@ -263,4 +263,32 @@ theorem C15.nearest_outside_clamps (c : Nat → K) (n : Nat) (p : K) (h : Incr c
     have hc := h (nearestIndex c n p) (n - 1) (by omega) (by omega)
     rw [abs_of_nonneg (by linarith), abs_of_nonneg (by linarith)] at h0
     linarith
+
+/-- Calling conventions: a point array of shape `(d, N)` (per-axis index/weight arrays of
+length `N`, combined position-wise) gives, entry by entry, the single-point results at its
+columns; a mesh grid (per-axis arrays combined by broadcasting) gives, in C order, the
+single-point results at the points of the cartesian product.  Holds for the per-axis/linear
+interpolator and for the nearest interpolator, every dimension. -/
+theorem C15.call_convention_invariant (axes : List (Axis K)) (v : List Nat → V)
+    (W : Type) (w : List Nat → W) (xs : List (List K)) (h : xs.length = axes.length) :
+    perAxisArray axes v xs = (columns xs).map (perAxisInterp axes v) ∧
+    perAxisMesh axes v xs = (cartesian xs).map (perAxisInterp axes v) ∧
+    nearestArray axes w xs = (columns xs).map (nearestInterp axes w) ∧
+    nearestMesh axes w xs = (cartesian xs).map (nearestInterp axes w) := by
+  refine ⟨?_, ?_, ?_, ?_⟩
+  · simp only [perAxisArray, columns_zipWith_map Axis.edge axes xs h, List.map_map]
+    rfl
+  · simp only [perAxisMesh, cartesian_zipWith_map Axis.edge axes xs h, List.map_map]
+    rfl
+  · simp only [nearestArray, columns_zipWith_map (fun a x => nearestIndex a.c a.n x) axes xs h,
+      List.map_map]
+    rfl
+  · simp only [nearestMesh, cartesian_zipWith_map (fun a x => nearestIndex a.c a.n x) axes xs h,
+      List.map_map]
+    rfl
+
+/-- Non-vacuity: two axes, a 2 x 3 mesh has 6 points in C order, three columns as points. -/
+example : cartesian [[(1 : ℚ), 2], [3, 4, 5]] = [[1, 3], [1, 4], [1, 5], [2, 3], [2, 4], [2, 5]] ∧
+    columns [[(1 : ℚ), 2, 3], [4, 5, 6]] = [[1, 4], [2, 5], [3, 6]] := by
+  constructor <;> simp [cartesian, columns]
 end
